@@ -121,6 +121,28 @@ def order_probes(ck):
             ck.fail(["C18", "order", core.sig_hash(t)], "outline entries are not in source order: %s" % bad[:8],
                     {"files": {"/main.td": t}, "root": "/main.td", "detail": {"probe": "order"}}, json.dumps(bad)[:300], "ascending positions")
     ck.count("order_probes", len(texts), nontriv, sample={"text": texts[0][:300]})
+    # a def is named by its identifier whatever else that identifier means where it stands (an iteration variable, a defvar of an
+    # enclosing block, a template argument of the enclosing multiclass, a field, a class): it is listed under that name
+    named = [
+        ("class A; foreach i = [1, 2] in def i : A; def tail : A;", [("A", None), ("i", None), ("tail", None)]),
+        ("class A; defvar v = 1; def v : A; def w : A;", [("A", None), ("v", None), ("w", None)]),
+        ("class A; defvar width = 8; defset list<A> Regs = { def lo : A; def width : A; } def after : A;", [("A", None), ("Regs", ["lo", "width"]), ("after", None)]),
+        ("multiclass M<string suffix> { def body; def suffix; } def last;", [("M", None), ("body", None), ("suffix", None), ("last", None)]),
+        ("class A; defvar v = 1; foreach i = [1] in { if 1 then { def v : A; def i : A; } } def z : A;", [("A", None), ("v", None), ("i", None), ("z", None)]),
+        ("class A { int f = 0; } class f; def f : A; def A;", [("A", None), ("f", None), ("f", None), ("A", None)]),
+        ("class A; defset list<A> S = { foreach S = [1] in def S : A; }", [("A", None), ("S", ["S"])]),
+    ]
+    nouts = core.impl(["ws " + json.dumps({"files": {"/main.td": t}, "root": "/main.td", "queries": [["document_symbol", "/main.td"]]}) for t, _ in named], tag="nam18")
+    for (t, want), o in zip(named, nouts):
+        try:
+            syms = json.loads(o)[0] or []
+        except Exception:
+            continue
+        got = [(x["name"], [c["name"] for c in x["children"]] if x["kind"] == "Defset" else None) for x in syms]
+        if got != [(n, c) for n, c in want]:
+            ck.fail(["C18", "outline", "def-named-like-something-in-scope"], "the outline of %r is %s" % (t[:80], got), {"files": {"/main.td": t}, "root": "/main.td", "detail": {"probe": "named-like"}},
+                    json.dumps(got)[:300], json.dumps(want))
+    ck.count("named_like_probes", len(named), {t for t, _ in named}, sample={"text": named[0][0]})
 
 
 def replay(ck, path):
